@@ -35,7 +35,7 @@ LEVEL_NOTE = "Trusted: simulator loop, crash fence of the SQLite seam (commit = 
 EVIDENCE_EXTRA = {"enumerated_dimension": "crash after the k-th persisted tick, k sampled (quick) / all (thorough) per program"}
 CHUNK = 4
 
-CFG = {"driver": "finish", "grid": [0, 1, 1, 2, 3], "backend": "sqlite", "idle_timeout": 60.0, "quiesce_gap": 500.0, "max_steps": 80_000}
+CFG = {"allow_join": True, "driver": "finish", "grid": [0, 1, 1, 2, 3], "backend": "sqlite", "idle_timeout": 60.0, "quiesce_gap": 500.0, "max_steps": 80_000}
 
 
 def gen(tape, cfg):
